@@ -137,18 +137,20 @@ theorem unparent_root {s : Seg} {a : Nat} (h : (s.get a).parent = none) : s.unpa
 /-- `Seg.unparent` keeps the forest; afterwards the slot is a root -/
 theorem unparent_forest {s : Seg} (hF : Forest s) {a : Nat} (ha : Real s a) :
     Forest (s.unparent a) ∧ ((s.unparent a).get a).parent = none ∧ Real (s.unparent a) a ∧ (s.unparent a).free = s.free ∧
-      (∀ j, ((s.unparent a).get j).copied = (s.get j).copied) ∧ ((s.unparent a).get a).child = (s.get a).child := by
+      (∀ j, ((s.unparent a).get j).copied = (s.get j).copied) ∧ ((s.unparent a).get a).child = (s.get a).child ∧
+      (∀ j, j ≠ a → ((s.unparent a).get j).parent = (s.get j).parent) := by
   cases hp : (s.get a).parent with
   | none =>
     rw [unparent_root hp]
-    exact ⟨hF, hp, ha, rfl, fun _ => rfl, rfl⟩
+    exact ⟨hF, hp, ha, rfl, fun _ => rfl, rfl, fun _ _ => rfl⟩
   | some p =>
     have hpr := (hF.par a p ha hp).1
     obtain ⟨l, hk⟩ := hF.kids p hpr
     have hal := hk.all a ha hp
     have hpa : p ≠ a := fun hh => hF.not_self ha (by rw [hp, hh])
     have hd := unparent_detached hk hal hpa
-    refine ⟨forest_of_detached hF hpr hk hal hd, by rw [hd.par a, if_pos rfl], ?_, hd.free, hd.cop, hd.chi a (Ne.symm hpa)⟩
+    refine ⟨forest_of_detached hF hpr hk hal hd, by rw [hd.par a, if_pos rfl], ?_, hd.free, hd.cop, hd.chi a (Ne.symm hpa),
+      fun j hj => by rw [hd.par j, if_neg hj]⟩
     unfold Real; rw [hd.cop a]; exact ha
 
 /-! ## `detachChildren` -/
@@ -221,11 +223,13 @@ theorem detachChildren_forest {s : Seg} (hF : Forest s) {a : Nat} (ha : Real s a
     Forest (detachChildren s a (s.slots.size + 1)) ∧ ((detachChildren s a (s.slots.size + 1)).get a).child = none ∧
     ((detachChildren s a (s.slots.size + 1)).get a).parent = (s.get a).parent ∧
     (detachChildren s a (s.slots.size + 1)).free = s.free ∧
-    (∀ j, ((detachChildren s a (s.slots.size + 1)).get j).copied = (s.get j).copied) := by
+    (∀ j, ((detachChildren s a (s.slots.size + 1)).get j).copied = (s.get j).copied) ∧
+    (∀ j, ¬ Real s j → ((detachChildren s a (s.slots.size + 1)).get j).parent = (s.get j).parent) := by
   obtain ⟨l, hk⟩ := hF.kids a ha
   have hal : a ∉ l := fun hh => hF.not_self ha (hk.mem a hh).1
   have hd := detachChildren_spec l (s.slots.size + 1) s a hk.local (fun j hj => (hk.mem j hj).1) hal (by have := hk.length_le; omega)
-  exact ⟨forest_of_detachedAll hF ha hk hd, hd.chiA, by rw [hd.par a, if_neg hal], hd.free, hd.cop⟩
+  exact ⟨forest_of_detachedAll hF ha hk hd, hd.chiA, by rw [hd.par a, if_neg hal], hd.free, hd.cop,
+    fun j hj => by rw [hd.par j, if_neg (fun hh => hj (hk.mem j hh).2)]⟩
 
 /-! ## `child` followed by `attachTo` -/
 
@@ -350,8 +354,9 @@ theorem chainDown_count (s : Seg) (sel : Slot → Option Nat) : ∀ (fuel : Nat)
 theorem attach_forest {s : Seg} (hF : Forest s) {i other : Nat} (ws : Bool) (hi : Real s i) (ho : Real s other) (hio : i ≠ other)
     (his : i < s.slots.size) (hos : other < s.slots.size) (hif : i ∉ s.free) (hof : other ∉ s.free) :
     Forest (s.attach i other ws) ∧ (s.attach i other ws).free = s.free ∧
-      ∀ j, ((s.attach i other ws).get j).copied = (s.get j).copied := by
-  obtain ⟨hF1, hp1, hr1, hfree1, hcop1, _⟩ := unparent_forest hF hi
+      (∀ j, ((s.attach i other ws).get j).copied = (s.get j).copied) ∧
+      (∀ j, j ≠ i → ((s.attach i other ws).get j).parent = (s.get j).parent) := by
+  obtain ⟨hF1, hp1, hr1, hfree1, hcop1, _, hpar1⟩ := unparent_forest hF hi
   have hsz1 : (s.unparent i).slots.size = s.slots.size := (GrVerif.Action.unparent_same s i).size
   unfold Seg.attach
   simp only []
@@ -379,13 +384,15 @@ theorem attach_forest {s : Seg} (hF : Forest s) {i other : Nat} (ws : Bool) (hi 
     split
     · have ts := TreeSame.upd ((child (s.unparent i) other i).2.upd i fun sl => sl.setParent (some other)) i
         (fun sl => { sl with withX := sl.advX, withY := 0 }) (fun _ => ⟨rfl, rfl, rfl, rfl⟩)
-      refine ⟨forest_congr ts hF2, by rw [ts.free, hatt.free, hfree1], fun j => ?_⟩
-      rw [(ts.fld j).2.2.2, hatt.cop j, hcop1 j]
+      refine ⟨forest_congr ts hF2, by rw [ts.free, hatt.free, hfree1], fun j => ?_, fun j hj => ?_⟩
+      · rw [(ts.fld j).2.2.2, hatt.cop j, hcop1 j]
+      · rw [(ts.fld j).1, hatt.par j, if_neg hj, hpar1 j hj]
     · have ts := TreeSame.upd ((child (s.unparent i) other i).2.upd i fun sl => sl.setParent (some other)) i
         (fun sl => { sl with attX := (((child (s.unparent i) other i).2.upd i fun sl => sl.setParent (some other)).get other).advX, attY := 0 })
         (fun _ => ⟨rfl, rfl, rfl, rfl⟩)
-      refine ⟨forest_congr ts hF2, by rw [ts.free, hatt.free, hfree1], fun j => ?_⟩
-      rw [(ts.fld j).2.2.2, hatt.cop j, hcop1 j]
-  · exact ⟨hF1, hfree1, hcop1⟩
+      refine ⟨forest_congr ts hF2, by rw [ts.free, hatt.free, hfree1], fun j => ?_, fun j hj => ?_⟩
+      · rw [(ts.fld j).2.2.2, hatt.cop j, hcop1 j]
+      · rw [(ts.fld j).1, hatt.par j, if_neg hj, hpar1 j hj]
+  · exact ⟨hF1, hfree1, hcop1, hpar1⟩
 
 end GrVerif.Seg
